@@ -297,11 +297,11 @@ def case_coq(sc, vi, out):
             ["(%s, %s)" % (z(st_num[k]), coq_list([q(x) for x in v])) for k, v in sch.items()])) for t, sch in out["calls"]])
     rows = lambda d: coq_list(["(%s, %s)" % (z(st_num[k]), coq_list([q(x) for x in v])) for k, v in d.items()])
     return ("{| k_stations := %s;\n k_config := %s;\n k_sched := %s;\n i_iterations := %d%%nat;\n i_pilots := %s;\n"
-            " i_rates := %s;\n i_energy := %s;\n i_warn := %s;\n i_check_warn := %s |}") % (
+            " i_rates := %s;\n i_energy := %s;\n i_warn := %s;\n i_check_warn := %s;\n i_crashed := %s |}") % (
         sts, cfg, sched, out["iterations"], rows(out["pilots"]), rows(out["rates"]),
         coq_list(["(%s, %s)" % (z(se_num[k]), q(v)) for k, v in out["energy"].items()]),
         coq_list(["(%d%%nat, %s)" % (t, coq_bool(b)) for t, b in out["warn"]]),
-        coq_bool(not feas_ambiguous(sc, vi, out)))
+        coq_bool(not feas_ambiguous(sc, vi, out)), coq_bool(bool(out["crash"])))
 
 
 VARIANTS = ["orig", "stperm", "cperm", "seperm", "shift"]
@@ -327,7 +327,7 @@ def scenario_cases(sc, outs):
     """correspondence cases (one per run) of one scenario; the paired outputs ride along for the monitor"""
     cases = []
     summary = {o["variant"]: {k: o[k] for k in ("crash", "iterations", "pilots", "rates", "energy", "warn")} for o in outs}
-    ambs = {o["variant"]: bool(o["crash"]) or ambiguous(sc, variant_input(sc, "orig" if o["variant"] == "hash" else o["variant"]), o)
+    ambs = {o["variant"]: (not o["crash"]) and ambiguous(sc, variant_input(sc, "orig" if o["variant"] == "hash" else o["variant"]), o)
             for o in outs}
     summary["amb_any"] = any(ambs.values()) or any(
         (not o["crash"]) and feas_ambiguous(sc, variant_input(sc, "orig" if o["variant"] == "hash" else o["variant"]), o) for o in outs)
@@ -335,7 +335,7 @@ def scenario_cases(sc, outs):
         v = o["variant"]
         vi = variant_input(sc, "orig" if v == "hash" else v)
         amb = ambs[v]
-        coq = "" if o["crash"] else case_coq(sc, vi, o)
+        coq = case_coq(sc, vi, o)
         cases.append(dict(input=dict(scenario=sc, variant=v), impl=dict(o, calls=None), coq=coq, ambiguous=amb,
                           kind="%s/%s" % (sc["kind"], v), sig=[sc["idx"], sc["perm_seed"], v], nontrivial=True,
                           paired=summary if v == "orig" else None))
